@@ -405,6 +405,10 @@ class StmtMixin:
     def s_For(self, st: ast.For) -> None:
         from .interp import _Break, _Continue
         it = self.eval(st.iter)
+        from .values import SGen
+        if isinstance(it, SGen):
+            self.generator_loop(st, it)
+            return
         items = self.concrete_items(it)
         if items is not None and not self.is_stop_loop(st):
             broke = False
@@ -424,6 +428,98 @@ class StmtMixin:
 
     def s_While(self, st: ast.While) -> None:
         self.symbolic_loop(st, None)
+
+    def generator_loop(self, st: ast.For, gen: Any) -> None:
+        """`for T in <generator>: BODY` - the generator's body runs lazily, BODY at each of its yields (so effects of the
+        producer and of the consumer interleave exactly as in Python); the loop as a whole is summarised like any loop over
+        an unknown number of items."""
+        from .interp import LoopRecord, _BodyExit, _Break, _Continue, _Raise, _Return
+        run = self.run
+        fr = self.frame
+        if self.is_stop_loop(st):
+            raise self.unmodelled("loop-body table of a loop over a generator", st)
+        lid = self.loop_id(st)
+        body = st.body
+        all_assigned = [n for n in assigned_names(body) if n in fr.env]
+        cont_assigned = [n for n in assigned_names(body, continuing_only=True) if n in fr.env]
+        rec = LoopRecord(len(run.loops), st, gen, dict(fr.env), fr.func.qual)
+        rec.carried = list(all_assigned)
+        rec.__dict__["loop_key"] = lid
+        run.loops.append(rec)
+        run.effect("loop", lid, None, gen, st)
+        for n in touched_names(body):
+            v = fr.env.get(n)
+            if isinstance(v, SList) and v.mode == "concrete" and v.pytype != "tuple":
+                v.__dict__["entry"] = list(v.items)
+                v.__dict__["loop"] = lid
+                v.mode = "carried"
+                v.name = v.name or n
+            elif isinstance(v, SDict) and v.concrete:
+                v.__dict__["entry"] = dict(v.items)
+                v.__dict__["loop"] = lid
+                v.concrete = False
+                v.name = v.name or n
+        has_break = _contains(body, (ast.Break,), stop_at_loops=True)
+        has_exit = _contains(body, (ast.Return, ast.Raise))
+        options = ["exhausted"] + (["break"] if has_break else []) + (["exit"] if has_exit else [])
+        c = 0
+        if len(options) > 1:
+            c = run.path.choose(("loop", lid), len(options), tuple(options))
+        choice = options[c]
+
+        def on_yield(v: Any) -> None:
+            self.frames.append(fr)
+            mark = len(run.effects)
+            try:
+                rec.__dict__["element"] = v
+                self.bind_target(st.target, v, st)
+                self.exec_block(body)
+            except _Continue:
+                pass
+            except _Break:
+                raise _BodyExit("break")
+            except _Return as r:
+                raise _BodyExit("return", r)
+            except _Raise as r:
+                raise _BodyExit("raise", r)
+            finally:
+                self.frames.pop()
+                for e in run.effects[mark:]:
+                    if e.__dict__.get("in_loop") is None:
+                        if e.extra is None or isinstance(e.extra, dict):
+                            e.extra = dict(e.extra or {}, in_loop=lid)
+                        e.__dict__["in_loop"] = lid
+                        e.__dict__["in_loop_rec"] = rec
+
+        saved = {n: fr.env[n] for n in all_assigned}
+        if choice == "exhausted":
+            for n in all_assigned:
+                fr.env[n] = self.generalise(n, fr.env[n], lid, "body")
+            try:
+                self.run_generator(gen, on_yield, st)
+            except _BodyExit:
+                raise_infeasible()
+            for n in all_assigned:
+                fr.env[n] = saved[n]
+            for n in cont_assigned:
+                fr.env[n] = self.generalise(n, fr.env[n], lid, "after")
+            for n in _names(st.target):
+                fr.env.setdefault(n, SUnknown(f"loop variable {n} after loop"))
+            self.exec_block(st.orelse)
+            return
+        for n in cont_assigned:
+            fr.env[n] = self.generalise(n, fr.env[n], lid, "body")
+        try:
+            self.run_generator(gen, on_yield, st)
+        except _BodyExit as b:
+            if b.kind == "break" and choice == "break":
+                return
+            if b.kind in ("return", "raise") and choice == "exit":
+                raise b.payload
+            raise_infeasible()
+        except _Raise:
+            raise_infeasible()      # the generator itself raised: that path belongs to the "exhausted" alternative
+        raise_infeasible()
 
     def loop_id(self, st: ast.stmt) -> Tuple[str, int]:
         fn = self.frame.func.node
@@ -552,12 +648,16 @@ class StmtMixin:
                 try:
                     enter_body(all_assigned)
                     self.exec_block(body)
-                except (_Continue, _Break, _Return, _Raise, Infeasible):
+                except _Continue:
                     pass
+                except (_Break, _Return, _Raise, Infeasible):
+                    # the sampled iteration left the loop: its effects are those of an iteration that does not continue
+                    rec.__dict__["sample_exited"] = True
                 for e in run.effects[mark:]:
                     if e.extra is None or isinstance(e.extra, dict):
                         e.extra = dict(e.extra or {}, in_loop=lid)
                     e.__dict__["in_loop"] = lid
+                    e.__dict__["in_loop_rec"] = rec      # this execution of the loop statement (the same statement may run several times)
                 fr.env.clear()
                 fr.env.update(saved_env)
             for n in cont_assigned:
